@@ -646,12 +646,53 @@ func c10ProtoCode(c *Ctx) {
 		}
 		// the code cell: the Alloc the conversion result is stored to; it post-dominates... every path after InvokeRpc stores it before exit
 		var cell *ssa.Alloc
+		// ... or a field of a small result object made for this shot (res := &shotResult{...}; res.code = ...)
+		var objCell *ssa.Alloc
+		objField := -1
 		for _, r := range *conv.Referrers() {
 			if st, ok := r.(*ssa.Store); ok && st.Val == ssa.Value(conv) {
 				if a, ok := st.Addr.(*ssa.Alloc); ok {
 					cell = a
 				}
+				if fa, ok := st.Addr.(*ssa.FieldAddr); ok {
+					if a, ok := fa.X.(*ssa.Alloc); ok && a.Parent() == fn {
+						objCell, objField = a, fa.Field
+					}
+				}
 			}
+		}
+		if cell == nil && objCell != nil {
+			okObj := InstrDominates(inv, conv) && NewPostDom(fn, false).PostDominates(conv.Block(), inv.Block())
+			// no other store to that field after the conversion
+			EachInstr(fn, func(in ssa.Instruction) {
+				if st, ok := in.(*ssa.Store); ok && st.Val != ssa.Value(conv) {
+					if fa, ok := st.Addr.(*ssa.FieldAddr); ok && fa.X == ssa.Value(objCell) && fa.Field == objField && CanReach(conv, st) {
+						okObj = false
+					}
+				}
+			})
+			// a deferred method of the object reads the field into SetProtoCode
+			okRead := false
+			EachInstr(fn, func(di ssa.Instruction) {
+				d, ok := di.(*ssa.Defer)
+				if !ok || d.Call.StaticCallee() == nil || len(d.Call.Args) == 0 || d.Call.Args[0] != ssa.Value(objCell) {
+					return
+				}
+				df := d.Call.StaticCallee()
+				EachInstr(df, func(in ssa.Instruction) {
+					if !IsCall(in, sSetProto) {
+						return
+					}
+					if u, ok := Strip(CC(in).Args[1]).(*ssa.UnOp); ok && u.Op == token.MUL {
+						if fa, ok := u.X.(*ssa.FieldAddr); ok && fa.Field == objField && len(df.Params) > 0 && fa.X == ssa.Value(df.Params[0]) {
+							okRead = true
+						}
+					}
+				})
+			})
+			c.Check(okObj && okRead, "O10.3", key+":reported-code-is-the-converted-rpc-status", conv.Pos(),
+				fmt.Sprintf("code = ConvertGrpcStatus(grpcErr) stored in the shot's result object on every path after InvokeRpc and not overwritten: %v; the deferred report reads that field: %v", okObj, okRead))
+			continue
 		}
 		okStore := cell != nil && InstrDominates(inv, conv) && NewPostDom(fn, false).PostDominates(conv.Block(), inv.Block())
 		// no other store to the cell after the conversion
